@@ -1,3 +1,6 @@
+(* ADDED IN THE THIRD ROUND: C05_tree_is_reference_in_every_state (memory roots and every node in unflushed map or tree store, in every state reachable by
+   appends, clears, reopens); C05_source_constants (hash type bytes and namespaces parsed from /repo/src on every run).
+   ---- header of the earlier rounds: ---- *)
 (* C05 — Merkle tree, root hash and signature match an independent reference (pinned statements;
    proofs in FlatTreeFacts.v and TreeRef.v). `ref_node cr blocks d o` is the reference tree of the
    Hypercore v10 scheme by structural recursion: leaves are block_node (BLAKE2b over type 0, LE size,
@@ -11,6 +14,7 @@
    the sums of the block sizes they span; no overflow panic when the total size fits in u64.
    Partial: that flush/reopen/replay move these nodes to and from storage unchanged is covered by the
    reference-tree oracle of tools/c05.py (raw tree/oplog bytes, proofs) and by the C06 round-trip theorems. *)
+From HC Require Import Core FlatTreeFacts TreeRef OffsetFacts Refine ClearRefine Unified1 Corollaries.
 From HC Require Import Base Codec Crypto Storage Bitfield Oplog Merkle SrcConsts ConstTie.
 From HC Require Import Base NMap Codec CodecFacts Crypto FlatTree Merkle Core FlatTreeFacts TreeRef.
 
@@ -95,6 +99,19 @@ Theorem C05_source_constants :
      tied src_LEADER_SIZE (len fr - len payload) /\ tied src_CRC_SIZE (len (le_bytes 4 (cr_crc cr [])))).
 Proof. exact source_constants_are_the_models. Qed.
 
+Theorem C05_tree_is_reference_in_every_state :
+  forall (cr : crypto) (c : core) (d : disk) (bs : list bytes) (cl : N -> bool),
+         FInv cr c d bs cl ->
+         let n := N.of_nat (Datatypes.length bs) in
+         t_length (c_tree c) = n /\
+         t_byte_length (c_tree c) = sumN (map len bs) /\
+         t_fork (c_tree c) = 0 /\
+         t_roots (c_tree c) = ref_roots cr bs n /\
+         (forall (dd : nat) (o : N),
+          (o + 1) * p2 dd <= n ->
+          required_node (c_tree c) (d_tree d) (ft_index (N.of_nat dd) o) = Ok (ref_node cr bs dd o)).
+Proof. exact tree_is_reference_everywhere. Qed.
+
 Print Assumptions C05_batch_is_reference.
 Print Assumptions C05_from_empty.
 Print Assumptions C05_signature_over_reference.
@@ -102,3 +119,4 @@ Print Assumptions C05_root_sizes.
 Print Assumptions C05_no_overflow_panic.
 Print Assumptions C05_flat_index_decomposition.
 Print Assumptions C05_source_constants.
+Print Assumptions C05_tree_is_reference_in_every_state.
